@@ -173,6 +173,10 @@ func runC13(c *engine.Ctx) {
 					if b, isB := cd.V.(*ssa.BinOp); isB && isLoadOfField(b.X, ch.field) && ((b.Op == token.GEQ && !cd.Pol) || (b.Op == token.LSS && cd.Pol)) {
 						ok = true
 					}
+					// the same test written the other way round: amount <= counter is false / amount > counter is true
+					if b, isB := cd.V.(*ssa.BinOp); isB && isLoadOfField(b.Y, ch.field) && ((b.Op == token.LEQ && !cd.Pol) || (b.Op == token.GTR && cd.Pol)) {
+						ok = true
+					}
 				}
 				c.Decide(r3, key, ch.st.Pos(), ok, "zeroed only on the counter < amount branch (clamp)", "a counter is reset to zero outside the clamp branch")
 			default:
@@ -316,6 +320,62 @@ func runC13(c *engine.Ctx) {
 	}
 
 	// R5 lock discipline
+	// the heap comparator: whatever function value the priority queue is constructed with, plus the helpers only it calls
+	compSet := map[*ssa.Function]bool{}
+	for _, f := range a.fns {
+		for _, ci := range engine.Calls(f) {
+			if ci.Static == nil || engine.FuncPkgPath(ci.Static) != "github.com/ipfs/go-ipfs-pq" || ci.Static.Name() != "New" || len(ci.Common.Args) == 0 {
+				continue
+			}
+			var add func(v ssa.Value, depth int)
+			add = func(v ssa.Value, depth int) {
+				if depth > 4 {
+					return
+				}
+				switch x := engine.LocalValue(v).(type) {
+				case *ssa.MakeClosure:
+					if fn, ok := x.Fn.(*ssa.Function); ok {
+						compSet[unwrapBound(fn)] = true
+						compSet[fn] = true
+					}
+				case *ssa.Function:
+					compSet[unwrapBound(x)] = true
+				case *ssa.Call:
+					if sc := x.Call.StaticCallee(); sc != nil && sc.Blocks != nil {
+						for _, r := range engine.Returns(sc) {
+							if len(r.Results) > 0 {
+								add(r.Results[0], depth+1)
+							}
+						}
+					}
+				case *ssa.ChangeType:
+					add(x.X, depth+1)
+				}
+			}
+			add(ci.Common.Args[0], 0)
+		}
+	}
+	for changed := true; changed; {
+		changed = false
+		for f := range compSet {
+			for _, ci := range engine.Calls(f) {
+				g := ci.Static
+				if g == nil || g.Blocks == nil || compSet[g] || engine.FuncPkgPath(g) != engine.Module+"/allocator" {
+					continue
+				}
+				only := true
+				for _, cs := range c.P.CallSitesOf(g) {
+					if !compSet[cs.Parent()] {
+						only = false
+					}
+				}
+				if only {
+					compSet[g] = true
+					changed = true
+				}
+			}
+		}
+	}
 	lc := engine.NewLockChecker(c.P)
 	for _, fld := range []*types.Var{a.total, a.statuses, a.heap, a.peerTotal, a.pending, c.P.Field("allocator", "Allocator", "nextAllocIndex")} {
 		if fld == nil {
@@ -325,7 +385,7 @@ func runC13(c *engine.Ctx) {
 			f := fa.Parent()
 			key := fmt.Sprintf("%s|%s %s", engine.FuncName(f), accessKind(fa), fld.Name())
 			// the heap comparator is only run by heap operations
-			if f.Parent() != nil && f.Parent().Name() == "makePeerStatusCompare" {
+			if compSet[f] || (f.Parent() != nil && f.Parent().Name() == "makePeerStatusCompare") {
 				c.Hold(r5, key, fa.Pos(), "heap comparator: invoked only by heap operations, which are checked to hold the lock")
 				continue
 			}
@@ -410,10 +470,42 @@ func c13PendingTotal(c *engine.Ctx, rule string) {
 					return
 				case *ssa.Const:
 					return
+				case *ssa.Call:
+					if sc := x.Call.StaticCallee(); sc != nil && sc.Blocks != nil && engine.InModule(engine.FuncPkgPath(sc)) {
+						for _, r := range engine.Returns(sc) {
+							if len(r.Results) > 0 {
+								walk(r.Results[0])
+							}
+						}
+						return
+					}
+				case *ssa.Extract:
+					if call, ok := x.Tuple.(*ssa.Call); ok {
+						if sc := call.Call.StaticCallee(); sc != nil && sc.Blocks != nil && engine.InModule(engine.FuncPkgPath(sc)) {
+							for _, r := range engine.Returns(sc) {
+								if x.Index < len(r.Results) {
+									walk(r.Results[x.Index])
+								}
+							}
+							return
+						}
+					}
 				}
-				if fl, _ := engine.LoadedField(v); fl != nil {
+				if fl, base := engine.LoadedField(v); fl != nil {
 					if fl == amountF {
 						fromLists = true
+						return
+					}
+					// a field of a local struct (a tally built up in this function): what was stored into it
+					if fa, isFA := base.(*ssa.FieldAddr); isFA {
+						base = fa.X
+					}
+					if al, isAl := base.(*ssa.Alloc); isAl {
+						for _, st2 := range engine.StoresTo([]*ssa.Function{f}, fl) {
+							if root := st2.Addr.(*ssa.FieldAddr).X; root == ssa.Value(al) {
+								walk(st2.Val)
+							}
+						}
 						return
 					}
 					if _, isInt := fl.Type().Underlying().(*types.Basic); isInt {
